@@ -56,24 +56,22 @@ fn write_real(text: &str) -> Result<Vec<u8>, String> {
     })
 }
 
-pub fn run(tier: Tier) -> i32 {
-    let mut rep = Report::new("C19", tier);
-    let depth = tier.pick(4, 7);
-    let seqs = all_seqs(LINES.len(), depth);
+fn sweep(menu: &[&str], depth: usize) -> Stats {
+    let seqs = all_seqs(menu.len(), depth);
     const CHUNK: usize = 2048;
     let ntasks = seqs.len().div_ceil(CHUNK);
-    let mut st = par_explore(ntasks, |ti, st| {
+    par_explore(ntasks, |ti, st| {
         for seq in &seqs[ti * CHUNK..((ti + 1) * CHUNK).min(seqs.len())] {
             for final_newline in [true, false] {
                 if seq.is_empty() && !final_newline {
                     continue;
                 }
-                let mut text = seq.iter().map(|&i| LINES[i]).collect::<Vec<_>>().join("\n");
+                let mut text = seq.iter().map(|&i| menu[i]).collect::<Vec<_>>().join("\n");
                 if final_newline && !seq.is_empty() {
                     text.push('\n');
                 }
                 // a text that ends with an empty line but no newline is the same as one line less
-                if !final_newline && seq.last().map_or(false, |&i| LINES[i].is_empty()) {
+                if !final_newline && seq.last().map_or(false, |&i| menu[i].is_empty()) {
                     continue;
                 }
                 st.states += 1;
@@ -108,7 +106,7 @@ pub fn run(tier: Tier) -> i32 {
                             continue;
                         }
                         st.count("corpora_accepted");
-                        if w.len() < seq.iter().filter(|&&i| LINES[i] == "EOS").count() {
+                        if w.len() < seq.iter().filter(|&&i| menu[i] == "EOS").count() {
                             st.count("corpora_with_dropped_empty_sentences");
                         }
                         if w.iter().any(|e| e.iter().any(|t| t.0 == "EOS")) {
@@ -163,9 +161,23 @@ pub fn run(tier: Tier) -> i32 {
         }
         if ti % 5 == 0 {
             let seq = &seqs[(ti * CHUNK + 77).min(seqs.len() - 1)];
-            st.sample(json!({"corpus": seq.iter().map(|&i| LINES[i]).collect::<Vec<_>>().join("\n")}));
+            st.sample(json!({"corpus": seq.iter().map(|&i| menu[i]).collect::<Vec<_>>().join("\n")}));
         }
-    });
+    })
+}
+
+pub fn run(tier: Tier) -> i32 {
+    let mut rep = Report::new("C19", tier);
+    let depth = tier.pick(4, 7);
+    let mut st = sweep(&LINES, depth);
+    // text-level corners: lines that begin with a byte-order mark, '#', blanks, look-alikes of EOS,
+    // each at the start of the text and after other lines
+    const SPECIAL: [&str; 16] = [
+        "a\tF", "EOS", "\u{FEFF}a\tF", "\u{FEFF}\tF", "#a\tF", "# comment", " a\tF", "a \tF", "\u{3000}\tF", "EOS ", " EOS", "eos", "\u{FEFF}EOS", "a\t F", "[a]\tF", "//\tF",
+    ];
+    let sp = sweep(&SPECIAL, tier.pick(3, 4));
+    st.add("special_line_corpora", sp.states);
+    st.merge(sp);
     // closure: MeCab-style tokenizer output parses into exactly the tokenizer's tokens
     let mut us = u_lex(tier);
     us.retain(|u| u.name.contains("matrix3x3s1") || u.name.contains("RawK3"));
@@ -236,7 +248,7 @@ pub fn run(tier: Tier) -> i32 {
         }
     });
     st.merge(res);
-    rep.rule = format!("state = corpus text: every sequence of <= {depth} lines from the 11-line menu {{token, token with 2 features, empty-surface token, token spelled EOS, EOS, line without tab, line with two tabs, empty line, feature ending in a space, empty feature, feature ending in U+3000}}, with and without final newline; parse -> write each example -> re-parse, compared with a reference line reader; plus, for lexicon dictionaries and all tab-free sentences <= {max_len} chars, the MeCab-style output (same writes as the tokenize CLI) must parse into exactly the tokenizer's tokens; distinct = distinct parse results");
+    rep.rule = format!("state = corpus text: every sequence of <= {depth} lines from the 11-line menu {{token, token with 2 features, empty-surface token, token spelled EOS, EOS, line without tab, line with two tabs, empty line, feature ending in a space, empty feature, feature ending in U+3000}}, with and without final newline, and every sequence of <= 3/4 lines from a 16-line menu of text-level corners (lines starting with U+FEFF, '#', blanks, U+3000; look-alikes of EOS; '[a]', '//'); parse -> write each example -> re-parse, compared with a reference line reader; plus, for lexicon dictionaries and all tab-free sentences <= {max_len} chars, the MeCab-style output (same writes as the tokenize CLI) must parse into exactly the tokenizer's tokens; distinct = distinct parse results");
     rep.bounds = json!({"max_lines": depth, "closure_sentence_len": max_len});
     rep.assumptions = vec!["a corpus whose last sentence lacks EOS is outside the documented format: the reference, like the code, drops the unterminated tokens".into(), "the tokenize binary itself is not run (it needs zstd images); its three write_all calls per token are mirrored".into()];
     rep.finish(
